@@ -187,3 +187,32 @@ def exotic_names(rng, RP, allow_quote=True):
         if len(set(names)) == len(RP[0]) and not (set(names) & set(RP[2])):
             return rename(RP, dict(zip(RP[0], names)))
     return None
+
+
+def many_moves_pda(rng, nt):
+    """PDA with nt (11..24) transitions most of which are no-op or replace moves (each needs an intermediate state of its own
+    in the push/pop normal form): a DFA-like control over 3..4 states and 2..3 letters with a few stack moves mixed in"""
+    nq = rng.randint(3, 4)
+    Q = ['q%d' % i for i in range(nq)]
+    S = list('abc')[:rng.randint(2, 3)]
+    G = ['X', 'Y'][:rng.randint(1, 2)]
+    T = []
+    seen = set()
+    while len(T) < nt:
+        p, q = rng.choice(Q), rng.choice(Q)
+        a = rng.choice(S) if rng.random() < 0.9 else None
+        k = rng.random()
+        if k < 0.6:
+            u, v = None, None
+        elif k < 0.8:
+            u, v = rng.choice(G), rng.choice(G)
+        elif k < 0.9:
+            u, v = None, rng.choice(G)
+        else:
+            u, v = rng.choice(G), None
+        m = (p, a, u, q, v)
+        if m not in seen and not (a is None and u is None and v is None and p == q):
+            seen.add(m)
+            T.append(m)
+    F = rng.sample(Q, rng.randint(1, 2))
+    return pd.make(Q, S, G, T, Q[0], F)
